@@ -453,4 +453,18 @@ example : countSince [1, 2, 2, 5] (some 2) = 1 ∧ ([1, 2, 2, 5] : List Rat).Pai
   · norm_num [countSince]
   · norm_num [List.pairwise_cons]
 
+/-- **A second session decides on the new data.** After the trainers have been attached to a fresh set of
+data users, every data user is empty (nothing of the first session's buffers is consulted any more), while
+the round-robin cursor and every trainer's marker are unchanged. -/
+theorem reattach_fresh (th : Th) :
+    th.reattach.cursor = th.cursor ∧ th.reattach.trainers = th.trainers ∧
+    (∀ p ∈ th.reattach.users, p.2.buf = [] ∧ p.2.ts = [] ∧ p.2.pend = []) ∧
+    th.reattach.users.map (·.1) = th.users.map (·.1) := by
+  refine ⟨rfl, rfl, ?_, ?_⟩
+  · intro p hp
+    simp only [Th.reattach, List.mem_map] at hp
+    obtain ⟨q, _, rfl⟩ := hp
+    exact ⟨rfl, rfl, rfl⟩
+  · simp [Th.reattach, List.map_map, Function.comp_def]
+
 end Pamiq.Trainer
